@@ -1,4 +1,5 @@
 import RedisVerif.Driver.C07
+import RedisVerif.Driver.C10
 
 open RedisVerif.Driver
 
@@ -8,9 +9,19 @@ partial def loop (h : IO.FS.Stream) (out : IO.FS.Stream) (f : String → String)
   out.putStrLn (f line)
   loop h out f
 
+/-- stateful sub-drivers: the state is threaded through the lines -/
+partial def loopState {σ : Type} (h : IO.FS.Stream) (out : IO.FS.Stream)
+    (f : σ → String → σ × String) (s : σ) : IO Unit := do
+  let line ← h.getLine
+  if line.isEmpty then return ()
+  let (s', o) := f s line
+  out.putStrLn o
+  loopState h out f s'
+
 def main (args : List String) : IO UInt32 := do
   let stdin ← IO.getStdin
   let stdout ← IO.getStdout
   match args with
   | ["C07"] => loop stdin stdout C07.step; return 0
+  | ["C10"] => loopState stdin stdout C10.step []; return 0
   | _ => IO.eprintln "usage: rvdriver <property-id> < ops"; return 2
